@@ -162,6 +162,12 @@ func (m *model) fill(p uint32, corrupt bool) {
 		m.tr.T.Pieces.AddData(p, uint32(b*fixture.Block), d, 0)
 	}
 	m.tr.T.Event <- peer.TorData{Peer: nil, Index: p, Begin: 0, Length: 0, Complete: true}
+	if m.nextW%2 == 0 {
+		// the completion is reported twice (the last block arrived from two peers in the end-game): the second
+		// report finds the piece being hashed, verified, or already discarded, and has nothing to announce
+		m.tr.T.Event <- peer.TorData{Peer: nil, Index: p, Begin: 0, Length: 0, Complete: true}
+		m.stat("completion-reported-twice")
+	}
 	if corrupt {
 		m.sw.Act("fail p%d (corrupt data, finalise)", p)
 		m.stat("fail")
